@@ -3,7 +3,7 @@ policy; never ends; merge keeps each input's order (spec/Reconnect.tla, spec/Mer
 import json
 import vlib
 
-MODULE = ["Reconnect", "Merge"]
+MODULE = ["Reconnect", "WireStream", "Merge"]
 META = {
     "spec": MODULE,
     "level_text": "TLC decides the property exhaustively on the bounded TLA+ models spec/Reconnect.tla (all scripts of "
@@ -22,6 +22,11 @@ META = {
                   "environment assumptions listed in the evidence file.",
 }
 ASSUMPTIONS = [
+    "wire level: a connection's items are the frames received after the FIRST subscription confirmation (what arrives before "
+    "any confirmation is discarded by the validator by design); a message that does not parse is an error item only once the "
+    "stream exists - while confirmations are outstanding it is logged and dropped by process_buffered_events (by design); "
+    "errors that merely report the socket closing (close frame / reset) are not items and are skipped by the projection; "
+    "instants are not observed at the wire level (real clock)",
     "back-off policies are well formed: backoff_ms_initial <= backoff_ms_max and backoff_multiplier >= 1 (otherwise the "
     "code's first wait is the initial value even above the maximum - outside the closed form min(b0*mult^(n-1), max))",
     "the instant at which an available item is delivered is left open (any instant not before its availability); the waits "
@@ -33,6 +38,7 @@ ASSUMPTIONS = [
     "once one input has ended, is left open (DESIGN 5.4); a send after the merged stream ended may be refused",
 ]
 
+WIRE_ARMS = ["InitCall", "Emit/Item/stream", "Emit/Err/stream", "Emit/Err/handler", "Emit/Notice/stream", "Stop/cut"]
 RECONNECT_ARMS = ["InitCall", "Wait", "Emit/Item/stream", "Emit/Err/stream", "Emit/Err/handler", "Emit/Notice/stream",
                   "Stop/quiet", "Stop/nostream"]
 MERGE_ARMS = ["SendL", "SendR", "CloseL", "CloseR", "Poll/Item", "Poll/Pending", "Poll/End"]
@@ -80,36 +86,69 @@ def ordinal(keep, b):
     return sum(1 for l in keep[:b] if l.get("a") == "Reset") - 1
 
 
-def validate_reconnect(ctx, trace_path, label):
+def validate_reconnect(ctx, trace_path, label, wire=False):
+    """wire=True: a wire-level trace (segments start with ResetWire and carry the frames of every connection)."""
+    reset = "ResetWire" if wire else "Reset"
+    rkind = "wire" if wire else "reconnect"
     lines = ctx.read_trace(trace_path)
     clean = ctx.path("clean_" + label + ".ndjson")
-    found, keep = ctx.screen_anomalies(lines, clean, anomaly)
+    found, keep = ctx.screen_anomalies(lines, clean, anomaly, reset_value=reset)
     for n, d, seg in found:
-        ctx.violation("anomaly:" + d.split(":")[0], "%s [%s, line %d] scenario %s" % (d, label, n, json.dumps(scenario_of(seg))),
-                      {"kind": "reconnect", "scenario": scenario_of(seg)})
-    count_arms(ctx, keep, kind, "reconnect")
+        ctx.violation(("wire-" if wire else "") + "anomaly:" + d.split(":")[0],
+                      "%s [%s, line %d] scenario %s" % (d, label, n, json.dumps(scenario_of(seg))),
+                      {"kind": rkind, "scenario": scenario_of(seg)})
+    count_arms(ctx, [l for l in keep if l.get("a") != reset], kind, rkind)
     n, bad, _ = ctx.tlc_trace("Trace_Reconnect", "Trace_Reconnect.cfg", clean)
     for b in bad:
-        seg = ctx.segment(keep, b)
+        seg = ctx.segment(keep, b, reset_value=reset)
         line = keep[b - 1]
         prev = seg[-2] if len(seg) >= 2 else {"a": "?"}
         scn = scenario_of(seg)
-        scn["variant"] = ordinal(keep, b)
-        sig = "trace:%s->%s" % (kind(prev), kind(line))
-        desc = ("policy %s, mode %s: after %s the implementation showed %s, which is not a step of Reconnect "
-                "[%s, line %d]; observed so far %s; script %s" % (
-                    json.dumps(scn["pol"]), scn["mode"], json.dumps(prev if prev.get("a") != "Reset" else {"a": "Reset"}),
-                    json.dumps(line), label, b,
-                    json.dumps([[l["a"], l.get("k"), l.get("v"), l.get("at")] for l in seg[1:-1]][-12:]),
-                    json.dumps(scn["script"])))
-        ctx.violation(sig, desc, {"kind": "reconnect", "scenario": scn})
-    ctx.cov["traces_validated_against_impl"] += sum(1 for l in keep if l.get("a") == "Reset")
+        sig = "%s:%s->%s" % ("wire" if wire else "trace", kind(prev), kind(line))
+        seen = [[l["a"], l.get("k"), l.get("v"), l.get("at")] for l in seg[1:-1]]
+        if wire:
+            desc = ("wire level (real OKX public-trades connection against the loopback exchange), mode %s: after %s the "
+                    "implementation showed %s, which is not a step of Reconnect for the script Wire!WireScript(wire) [%s, line %d]; "
+                    "observed so far %s; frames per connection %s" % (
+                        scn["mode"], json.dumps(prev if prev.get("a") != reset else {"a": reset}), json.dumps(line), label, b,
+                        json.dumps([[x[1], x[2]] if x[0] == "Emit" else x[0] for x in seen][-16:]), json.dumps(scn["wire"])))
+        else:
+            scn["variant"] = sum(1 for l in keep[:b] if l.get("a") == reset) - 1
+            desc = ("policy %s, mode %s: after %s the implementation showed %s, which is not a step of Reconnect "
+                    "[%s, line %d]; observed so far %s; script %s" % (
+                        json.dumps(scn["pol"]), scn["mode"], json.dumps(prev if prev.get("a") != reset else {"a": reset}),
+                        json.dumps(line), label, b, json.dumps(seen[-12:]), json.dumps(scn["script"])))
+        ctx.violation(sig, desc, {"kind": rkind, "scenario": scn})
+    ctx.cov["traces_validated_against_impl"] += sum(1 for l in keep if l.get("a") == reset)
     return n
 
 
 def scenario_of(seg):
     r = seg[0]
+    if r.get("a") == "ResetWire":
+        return {"mode": r.get("mode"), "pol": r.get("pol"), "wire": r.get("wire")}
     return {"mode": r.get("mode"), "pol": r.get("pol"), "script": r.get("script")}
+
+
+def wire_scenarios(conns, per=4):
+    """Group TLC's connection scripts (Gen_WireStream) into scenarios of `per` connections with one subscription
+    set, giving every trade / garbage frame a value that is unique within the scenario."""
+    scns = []
+    for need in sorted({c["need"] for c in conns}):
+        group = [c for c in conns if c["need"] == need]
+        for n in range(0, len(group), per):
+            wire = []
+            for j, c in enumerate(group[n:n + per]):
+                wire.append({"need": need, "frames": [{"t": f["t"], "vs": [v + 100 * j for v in f["vs"]]} for f in c["frames"]]})
+            scns.append({"mode": "handler" if len(scns) % 2 else "stream", "pol": {"b0": 125, "mult": 2, "max": 60000}, "wire": wire})
+    return scns
+
+
+def run_wire(ctx, label, *args):
+    out = ctx.path("trace_%s.ndjson" % label)
+    info = ctx.harness("c12", *args, "--out", out)
+    validate_reconnect(ctx, out, label, wire=True)
+    return info
 
 
 def judge_results(ctx, res_path, label):
@@ -156,7 +195,7 @@ def ops_of(seg):
 
 
 def require_arms(ctx):
-    for key, arms in (("reconnect", RECONNECT_ARMS), ("merge", MERGE_ARMS)):
+    for key, arms in (("reconnect", RECONNECT_ARMS), ("wire", WIRE_ARMS), ("merge", MERGE_ARMS)):
         missing = [a for a in arms if ctx.arms.get(key, {}).get(a, 0) == 0]
         if missing:
             raise vlib.ToolError("the recorded %s traces never exercised %s (vacuous binding)" % (key, missing))
@@ -182,7 +221,9 @@ def check(ctx):
         ctx.tlc_mc("MC_Reconnect", "MC_Reconnect.cfg", timeout=900)
         ctx.tlc_mc("MC_Reconnect", "MC_Reconnect_timed.cfg", timeout=900)
         ctx.tlc_mc("Merge", "MC_Merge.cfg", timeout=600)
+        ctx.tlc_mc("WireStream", "MC_WireStream.cfg", timeout=600)
     if not q and not impl_only:
+        ctx.tlc_mc("WireStream", "MC_WireStream_thorough.cfg", timeout=900)
         ctx.tlc_mc("MC_Reconnect", "MC_Reconnect_thorough.cfg", timeout=2400, coverage=False)
         ctx.tlc_mc("MC_Reconnect", "MC_Reconnect_timed_thorough.cfg", timeout=2400, coverage=False)
         ctx.tlc_mc("Merge", "MC_Merge_thorough.cfg", timeout=900)
@@ -197,6 +238,19 @@ def check(ctx):
     run_reconnect(ctx, "scripts_timed", "run", "--scenarios", p_b)
     # ---- seeded random long scripts (latencies, silences, failure runs up to 10, six policies)
     run_reconnect(ctx, "random", "random", "--seed", ctx.seed, "--n", 400 if q else 4000)
+    # ---- wire level: every connection script of WireStream's bound + seeded random ones, played by a loopback
+    #      websocket exchange to the real OKX public-trades connection under the real init_market_stream
+    p_w, conns = ctx.tlc_gen("Gen_WireStream", "Gen_WireStream%s.cfg" % suffix, "wire_conns.ndjson", dedup=False, timeout=900)
+    wscn = wire_scenarios(conns)
+    p_ws = ctx.path("wire_scenarios.ndjson")
+    with open(p_ws, "w") as f:
+        for w in wscn:
+            f.write(json.dumps(w) + "\n")
+    between = [w for w in wscn if any(any(f["t"] == "data" and len(f["vs"]) > 1 for f in c["frames"][1:c["need"] + 1]) for c in w["wire"])]
+    ctx.sample({"kind": "wire-level scenario (frames per connection)", "scenario": (between or wscn)[0]})
+    run_wire(ctx, "wire", "wire", "--scenarios", p_ws)
+    ctx.cov["scenarios_replayed"] += len(wscn)
+    run_wire(ctx, "wire_random", "wire-random", "--seed", ctx.seed, "--n", 150 if q else 1500)
     # ---- Merge: all schedules of the small graph + seeded random long schedules
     p_m, scn_m = ctx.tlc_gen("Gen_Merge", "GenT_Merge%s.cfg" % suffix, "schedules.ndjson", timeout=900)
     ctx.sample({"kind": "TLC merge schedule", "scenario": scn_m[len(scn_m) // 2]})
@@ -222,6 +276,10 @@ def replay(ctx, rp):
         out = ctx.path("replay_trace.ndjson")
         ctx.harness("c12", "merge-run", "--scenarios", scn, "--out", out)
         validate_merge(ctx, out, "replay")
+    elif rp.get("kind") == "wire":
+        with open(scn, "w") as f:
+            f.write(json.dumps(rp["scenario"]) + "\n")
+        run_wire(ctx, "replay", "wire", "--scenarios", scn)
     else:
         with open(scn, "w") as f:
             f.write(json.dumps(rp["scenario"]) + "\n")
